@@ -1,3 +1,4 @@
+mod c19;
 mod case;
 mod driver;
 mod exec;
